@@ -101,6 +101,9 @@ def cases(tier):
                 for mode in modes:
                     add(c={"seg": sc}, s={"seg": ss}, reqs=[(n, 0)], peerinfo=mode)
                     add(c={"seg": sc}, s={"seg": ss}, reqs=[(0, n)], peerinfo=mode)
+                    # the same through the IOCB interface: being told "it cannot be sent" must reach the IOCB too
+                    if n >= payload_for(50 - 3):
+                        add(c={"seg": sc}, s={"seg": ss}, reqs=[(n, 0)], peerinfo=mode, via="iocb")
             if tier != "quick":
                 for size in (128, 480, 1476):
                     for n in (payload_for(size - 4), payload_for(size - 3), payload_for(size - 2), payload_for(3 * size)):
@@ -119,6 +122,14 @@ def cases(tier):
                             for mode in ("none", "record"):
                                 add(c={"maxsegs": xc, "window": 8}, s={"maxsegs": xs, "window": 8}, reqs=[(n, 0)], peerinfo=mode)
                             add(c={"maxsegs": xc, "window": 8}, s={"maxsegs": xs, "window": 8}, reqs=[(0, n)], peerinfo="none")
+    # (C') the request itself arrives in segments and the answer is around the client's segment limit, the server's own
+    # limit being larger
+    for xc in (2, 4, 8, 16):
+        for k in (xc - 1, xc, xc + 1):
+            for d in (-1, 0, 1):
+                for rq_total in (2 * 44 - 1, 3 * 44):
+                    add(c={"maxsegs": xc, "window": 8}, s={"maxsegs": 64, "window": 8},
+                        reqs=[(payload_for(rq_total), payload_for(k * 45 + d))], peerinfo="none")
     # (E) the server's record of the client is stale: it says more than the request being answered allows
     for true_c in ({"seg": "noSegmentation", "maxapdu": 206}, {"seg": "segmentedTransmit", "maxapdu": 50},
                    {"seg": "segmentedBoth", "maxapdu": 128}, {"seg": "segmentedBoth", "maxapdu": 50, "maxsegs": 2}):
